@@ -360,3 +360,26 @@ def op_sequences(full=False, leaf_engine=SQL, xfer_to=None):
         if ok:
             out.append(p)
     return out
+
+
+def self_join_nested():
+    """Deterministic: a table read twice in a join of four operands, for every bracketing of the join and either position
+    of the second reader (the database needs one of the two readers under a name of its own wherever it sits)."""
+    a, b, c, d = K(1), K(2), K(3), K(4)
+    V = ("leaf", 1, SQL, [a, b], [{a: 1, b: 2}, {a: 2, b: 3}, {a: 1, b: 2}], (0, None))
+    D = ("leaf", 2, SQL, [a, c], [{a: 1, c: 8}, {a: 2, c: 9}], (0, None))
+    E = ("leaf", 3, SQL, [a, d], [{a: 1, d: 7}, {a: 2, d: 6}, {a: 2, d: 6}], (0, None))
+
+    def J(x, y):
+        return ("join", None, True, False, x, y)
+
+    def brackets(xs):
+        if len(xs) == 1:
+            return [xs[0]]
+        return [J(l, r) for i in range(1, len(xs)) for l in brackets(xs[:i]) for r in brackets(xs[i:])]
+    out = []
+    for X in (V, D, E):
+        again = ("un", ("calc", N(5), ("add", ("ref", a), ("lit", 1))), mp.DEFAULT, X)
+        for order in ([V, D, E, again], [again, V, D, E], [V, again, D, E]):
+            out += brackets(order)
+    return out
